@@ -37,6 +37,31 @@ def flag_builders(ctx):
                     out[flag] = [x for x in names if x and (x.startswith("_calc_") or x.startswith("_build_"))]
     if set(out) != {"bus_pq", "trafo", "gen"}:
         ctx.fail(f"_recycled_powerflow: recycle flag blocks not found ({sorted(out)})")
+    # inside a flag block a builder may only be guarded by the presence test of its own element: a builder in an
+    # elif/else branch is skipped whenever the preceding test holds
+    R0 = "RECYCLE-RERUN"
+    ctx.rule(R0, "inside the block of a raised recycle flag every builder is re-run unconditionally or under the presence test of its "
+                 "own element only (never in the elif/else of another element's test)")
+    for n in ast.walk(fi.node):
+        if isinstance(n, ast.If):
+            t = ast.unparse(n.test).replace('"', "'")
+            flags = [f for f in ("bus_pq", "trafo", "gen") if f"recycle['{f}']" in t]
+            if not flags:
+                continue
+            def scan(body, in_else_of=None):
+                for st in body:
+                    if isinstance(st, ast.If):
+                        scan(st.body, in_else_of)
+                        scan(st.orelse, ast.unparse(st.test))
+                    else:
+                        for c in calls_in(st):
+                            nm = call_name(c) or ""
+                            if nm.startswith("_calc_") or nm.startswith("_build_"):
+                                ctx.ob(R0, f"{PF}::_recycled_powerflow::{flags[0]}:{nm}", in_else_of is None,
+                                       f"{nm} is re-run whenever recycle['{flags[0]}'] is raised (and its element exists)" if in_else_of is None else
+                                       f"{nm} sits in the else-branch of `{in_else_of}`: it is not re-run when that test holds, the change of its "
+                                       "element is ignored in recycled steps", fi.loc(c))
+            scan(n.body)
     return out, fi
 
 
@@ -174,6 +199,11 @@ def run(ctx):
             reject = node
     if reject is None:
         ctx.fail("_check_output_writer_recyclability: rejection test not found")
+    ok = "recycle['trafo']" in ast.unparse(reject.test).replace('"', "'")
+    ctx.ob(R2, f"{RT}::_check_output_writer_recyclability::no-batch-with-trafo-flag", ok,
+           "batch reading is refused when recycle['trafo'] is raised" if ok else
+           "batch reading is accepted although recycle['trafo'] is raised: get_batch_outputs computes branch results of every step from "
+           "the branch matrix of the last step, so steps with other tap positions are wrong", fc.loc(reject))
     env = {k: fold(v) for k, v in mod.assigns.items() if fold(v) is not NOFOLD}
     for node in ast.walk(reject.test):
         if isinstance(node, ast.Compare) and isinstance(node.ops[0], ast.NotIn):
@@ -249,6 +279,8 @@ def variants(repo):
     nr = "pandapower/pf/run_newton_raphson_pf.py"
     V = Variant
     return [
+        V("trafo3w rebuilt only without trafo", "pandapower/powerflow.py", in_function("_recycled_powerflow", replace_once('        if "trafo3w" in lookup:', '        elif "trafo3w" in lookup:')), "RECYCLE-RERUN"),
+        V("batch read with active tap changer", rt, replace_once('variable not in BATCH_READ_VARIABLES[table] or recycle["trafo"] \\\n                or len(output) > 2:', 'variable not in BATCH_READ_VARIABLES[table] or len(output) > 2:'), "no-batch-with-trafo-flag"),
         V("line recyclable again", cc, in_function("set_recycle", lambda s: s.replace('"trafo", "trafo3w"]', '"trafo", "trafo3w", "line"]', 1).replace('["trafo", "trafo3w"]:', '["trafo", "trafo3w", "line"]:', 1)), "line.*->trafo"),
         V("gen q recyclable", cc, in_function("set_recycle", replace_once('self.variable in ["p_mw", "vm_pu", "scaling"]', 'self.variable in ["p_mw", "vm_pu", "scaling", "min_q_mvar_xx"]')), "gen.min_q_mvar_xx"),
         V("batch accepts any line variable", rt, replace_once("variable not in BATCH_READ_VARIABLES[table] or ", ""), "BATCH-KEYS"),
